@@ -64,3 +64,82 @@ package sse
 //@   ensures elapsed_limit: shouldRetry && c.b.MaxElapsedTime > 0 ==> interval <= c.b.MaxElapsedTime
 //@   ensures no_wait_without_retry: !shouldRetry ==> interval == 0
 //@   ensures interval_nonneg: c.interval >= 0
+
+// ---------------------------------------------------------------------------------------------------------
+// replay.go: ring buffer (C08, C09, C18)
+// ---------------------------------------------------------------------------------------------------------
+
+//@ pure wf(q) = 0 <= q.count && q.count <= len(q.buf) && (len(q.buf) == 0 ==> q.head == 0 && q.tail == 0) &&
+//@     (len(q.buf) > 0 ==> 0 <= q.head && q.head < len(q.buf) && 0 <= q.tail && q.tail < len(q.buf) && q.tail == phys(q, q.count))
+//@ pure phys(q, k) = ite(q.head + k < len(q.buf), q.head + k, q.head + k - len(q.buf))
+//@ pure at(q, k) = q.buf[phys(q, k)]
+//@ pure live(q, i) = ite(q.head + q.count <= len(q.buf), q.head <= i && i < q.head + q.count, i >= q.head || i < q.head + q.count - len(q.buf))
+//@ pure deadzero(q) = forall(i, 0, len(q.buf), !live(q, i) ==> q.buf[i] == zeroelem(q.buf))
+
+//@ func queue.enqueue
+//@   requires q != nil && wf(q) && len(q.buf) > 0
+//@   modifies q.buf, q.head, q.tail, q.count
+//@   ensures wf_kept: wf(q) && len(q.buf) == old(len(q.buf))
+//@   ensures view_appended: at(q, q.count-1) == v
+//@   ensures view_grows: old(q.count) < len(q.buf) ==> q.count == old(q.count)+1
+//@   ensures view_shifted: old(q.count) < len(q.buf) ==> forall(k, 0, old(q.count), at(q, k) == old(at(q, k)))
+//@   ensures view_full: old(q.count) == len(q.buf) ==> q.count == len(q.buf)
+//@   ensures view_evicts_oldest: old(q.count) == len(q.buf) ==> forall(k, 0, q.count-1, at(q, k) == old(at(q, k+1)))
+//@   ensures slots_outside_untouched: forall(i, 0, len(q.buf), i != old(q.tail) ==> q.buf[i] == old(q.buf[i]))
+
+//@ func queue.dequeue
+//@   requires q != nil && wf(q) && q.count > 0
+//@   modifies q.buf, q.head, q.count
+//@   ensures wf_kept: wf(q) && len(q.buf) == old(len(q.buf))
+//@   ensures view_shrinks: q.count == old(q.count) - 1
+//@   ensures view_drops_first: forall(k, 0, q.count, at(q, k) == old(at(q, k+1)))
+//@   ensures vacated_slot_zeroed: q.buf[old(q.head)] == zeroelem(q.buf)
+//@   ensures slots_outside_untouched: forall(i, 0, len(q.buf), i != old(q.head) ==> q.buf[i] == old(q.buf[i]))
+
+//@ func queue.resize
+//@   requires q != nil && wf(q) && newSize > q.count
+//@   requires dead_slots_zero_before: deadzero(q)
+//@   modifies q.buf, q.head, q.tail
+//@   ensures wf_kept: wf(q) && len(q.buf) == newSize && q.head == 0 && q.count == old(q.count)
+//@   ensures view_kept: forall(k, 0, q.count, at(q, k) == old(at(q, k)))
+//@   ensures dead_slots_zero: deadzero(q)
+
+//@ func topicsIntersect
+//@   ensures found: result ==> exists(i, 0, len(a), exists(j, 0, len(b), a[i] == b[j]))
+//@   ensures none: !result ==> forall(i, 0, len(a), forall(j, 0, len(b), a[i] != b[j]))
+//@   invariant 0 no_match_so_far: forall(i, 0, ri0, forall(j, 0, len(b), a[i] != b[j]))
+//@   invariant 1 no_match_in_row: forall(j, 0, ri1, a[ri0] != b[j])
+
+// ---------------------------------------------------------------------------------------------------------
+// message.go / message_fields.go: single-line field values (C14)
+// ---------------------------------------------------------------------------------------------------------
+
+//@ func isSingleLine
+//@   ensures definition: iff(result, singleLine(p))
+
+//@ func newMessageField
+//@   ensures accepted: result1 == nil ==> result.set && result.value == value && singleLine(value)
+//@   ensures rejected: result1 != nil ==> !result.set && result.value == "" && !singleLine(value)
+//@   ensures decides: iff(result1 == nil, singleLine(value))
+
+//@ func NewID
+//@   ensures accepted: result1 == nil ==> result.set && result.value == value && singleLine(value)
+//@   ensures rejected: result1 != nil ==> !result.set && result.value == "" && !singleLine(value)
+//@   ensures decides: iff(result1 == nil, singleLine(value))
+
+//@ func NewType
+//@   ensures accepted: result1 == nil ==> result.set && result.value == value && singleLine(value)
+//@   ensures rejected: result1 != nil ==> !result.set && result.value == "" && !singleLine(value)
+//@   ensures decides: iff(result1 == nil, singleLine(value))
+
+//@ func must
+//@   requires no_error: err == nil
+//@   ensures passes_value: result == v
+
+//@ func ID
+//@   requires valid: singleLine(value)
+//@   ensures set_to_value: result.set && result.value == value
+
+//@ func Type
+//@   requires valid: singleLine(value)
+//@   ensures set_to_value: result.set && result.value == value
